@@ -471,6 +471,11 @@ def encodeKids (N : Num) : List ChildField → List (List Val) → Res (List (By
 def mergePoints (N : Num) (T : Ty) (id : Bytes) (pts : List Point) (v : Val) : Option DecodeOut :=
   if id.isEmpty ∨ v.id ≠ id then none else some (decode N T { id := id, points := pts } v)
 
+/-- `MergeEdgePoints` on the top-level struct: the node id must match, and the parent too when one is given -/
+def mergeEdgePoints (N : Num) (T : Ty) (id parent : Bytes) (pts : List Point) (v : Val) : Option DecodeOut :=
+  if id.isEmpty ∨ v.id ≠ id ∨ (¬ parent.isEmpty ∧ v.parent ≠ parent) then none
+  else some (decode N T { id := id, parent := parent, edgePoints := pts } v)
+
 /-! ## DiffPoints -/
 /-- `reflect.Value.Equal` on two scalars of kind `k` -/
 def sEq (N : Num) (k : SKind) (a b : SVal) : Bool :=
